@@ -203,6 +203,9 @@ class Env:
             m = h.Module()
             # (a generator that does not cache may depend on outside state: here, how often it ran)
             m.p = h.Port(width=1 + ((hash64(repr_params(p)) + (0 if g["cache"] else env.attempts[gid])) % 3))
+            if g["shape"] == "P3" and g["cache"]:
+                # the module's content carries the number it was called with
+                m.add(h.R(r=p.s)(p=m.p[0], n=m.p[0]), name="rs")
             if g["body"] == "call":
                 inner = env.gens[g["callee"]]
                 sub = inner(env.derive(g["callee"], p))
@@ -414,6 +417,15 @@ def exec_calls(arg):
                     fail("body-ran-twice", f"after call #{i}: the body of caching generator {g3} has run {n3} times for {repr_params(plain.get((g3, p3), p3)) if (g3, p3) in plain else p3}")
             names_seen.setdefault(id(m), (m.name, m))
             obs[i] = {"name": m.name, "qual": _qual(h, m)}
+            if g["shape"] == "P3" and g["cache"] and g["body"] in ("build", "raise_n"):
+                # its package, to be compared with the package the same call gives when the calls
+                # are made in another order (equal numbers may be written differently)
+                try:
+                    import hashlib
+
+                    obs[i]["pkg"] = hashlib.blake2b(h.to_proto(m).SerializeToString(deterministic=True), digest_size=10).hexdigest()
+                except Exception as e:  # noqa
+                    obs[i]["pkg"] = "exc:" + type(e).__name__
         elif op[0] in ("export_pair", "export_all"):
             if op[0] == "export_pair":
                 idx = [op[1], op[2]]
@@ -501,6 +513,8 @@ def run(scn):
     cached = [g["cache"] for g in scn["gens"]]
     for i, (oa, ob) in enumerate(zip(a["obs"], b["obs"])):
         if oa and ob and "name" in oa and "name" in ob:
+            if oa.get("pkg") != ob.get("pkg"):
+                res["findings"].append({"prop": "C12", "clause": "package-depends-on-history", "detail": [f"call #{i} {scn['ops'][i]}: the returned module exports differently when the same calls are made in another order"]})
             if oa["qual"] != ob["qual"]:
                 res["findings"].append({"prop": "C09", "clause": "name-depends-on-history", "detail": [f"call #{i} {scn['ops'][i]}: named {oa['qual']!r} in call order, {ob['qual']!r} when the same calls are made in another order"]})
             else:
